@@ -67,12 +67,17 @@ def run(ctx) -> None:
     for k, (p, o) in enumerate(zip(sample, nres)):
         if o.get("hang") or o.get("driver_error") or o.get("crash"):
             continue
+        if o.get("untraced"):
+            ctx.extra["nodes_untraced"] = ctx.extra.get("nodes_untraced", 0) + o["untraced"]
         decls = [s_["decl"] for s_ in p["body"] if s_["k"] == "map"]
         nrecs.append({"id": str(k), "ok": o["ok"], "nodes": o["nodes"], "rom": p["rom"], "decls": decls})
     nrej, nst, ngen = tlc.judge_traces("TraceC02N", nrecs, tag="c02.nodes", nshards=16)
     ctx.add_states(nst, ngen, "TraceC02N: per-node label-pass address/size vs emission")
     ctx.traces += len(nrecs)
     ctx.extra["node_traces"] = {"programs": len(nrecs), "nodes": sum(len(r["nodes"]) for r in nrecs)}
+    if ctx.extra["node_traces"]["nodes"] == 0 or ctx.extra.get("nodes_untraced"):
+        ctx.note(f"per-node tracing through NodeProtocol incomplete ({ctx.extra.get('nodes_untraced', 0)} nodes could not be wrapped, "
+                 f"{ctx.extra['node_traces']['nodes']} traced): the second formulation of C02 was decided on the traced nodes only")
     for rj in nrej:
         p = sample[int(rj["id"])]
         ctx.violation("nodes/" + keyfn(p, "size", ""), "size given in the label pass differs from the bytes emitted: " + rj["clause"],
